@@ -141,12 +141,31 @@ def run(ctx):
         "opaque leaves (curve points, scalars, ed25519/VRF/BLS keys, dlog proofs) have abstract validity: the theorems hold for every "
         "validity oracle; the runner answers by membership in a pool of encodings produced and accepted by the implementation",
         "UTF-8 validity (UrlText) is an opaque kind whose runtime oracle is a hand-written validator in ocaml/driver_c05.ml",
-        "hand-written schema terms (Chain/ChainSchemas.v) are tied to the Rust impls by correspondence only (translator T4 not built)",
+        "translator T4 (translators/gen_chain_schemas.py) regenerates the schema terms of the derive(Serialize)/derive(Serial) types from the Rust "
+        "declarations on every run, reading the derive macro's rules (field order, u8 variant index, size_length attributes, one-field struct = "
+        "its field, PhantomData dropped); types with hand-written impls enter through the MANUAL table (hand-written terms, tied by correspondence)",
         "the model's early rejection `declared count > remaining input` is equivalent to the Rust element loop because every vector "
         "element of a well-formed schema occupies at least one byte (schema_wf); the allocation counter counts storage reserved ahead "
         "of the data (vector slots, byte-string bytes), not element pushes",
         "Rust-side allocation bound checked: peak live bytes per decode call <= 4 MiB + 256 KiB * |input|",
     ]
+    # ---- translator T4: derive(Serialize)/derive(Serial) declarations -> coq/Gen/ChainSchemas.v + harness/c05/src/gen_types.rs
+    #      (Props/C05.v: generated_schemas_match / generated_layouts_match / generated_table_all_laws)
+    import importlib.util
+    tie_broken = None
+    trep = {}
+    try:
+        spec = importlib.util.spec_from_file_location("gen_chain_schemas", os.path.join(c.VERIF, "translators", "gen_chain_schemas.py"))
+        gcs = importlib.util.module_from_spec(spec)
+        spec.loader.exec_module(gcs)
+        trep = gcs.generate(c.REPO)
+    except Exception as ex:
+        tie_broken = "translator gen_chain_schemas failed: %s" % ex
+        ctx.log(tie_broken)
+    S = dict(SCHEMAS)
+    for k, v in trep.get("registered", {}).items():
+        S[int(k)] = "derived:" + v
+    ctx.notes["translator"] = {k: trep.get(k) for k in ("translated", "fully_derived", "registered", "tied_equal", "tied_layout", "serial_only", "unsupported")}
     ok, info = c.coq_prove(ctx)
     proof_broken = None if ok else info
     if not ok:
@@ -176,23 +195,23 @@ def run(ctx):
         return
 
     # ---- schema well-formedness as seen by the extracted model (sanity of the tie Coq <-> runner)
-    rc, lines = run_model(ctx, runner, pool, ["W %d" % i for i in sorted(SCHEMAS)] + ["W 100"])
-    wf = {i: l.split() for i, l in zip(sorted(SCHEMAS) + [100], lines)}
-    bad = [i for i in SCHEMAS if wf.get(i, ["W", "false"])[1] != "true"]
+    rc, lines = run_model(ctx, runner, pool, ["W %d" % i for i in sorted(S)] + ["W 100"])
+    wf = {i: l.split() for i, l in zip(sorted(S) + [100], lines)}
+    bad = [i for i in S if wf.get(i, ["W", "false"])[1] != "true"]
     if bad or wf.get(100, ["W", "true"])[1] != "false":
         ctx.violation({"layer": "schema_wf", "not_wf": bad, "prefix_term": wf.get(100)},
                       "schema well-formedness differs from what Props/C05.v proves", no_input=True)
-    ctx.notes["schema_caps"] = {SCHEMAS[i]: {"cap": wf[i][2], "min_size": wf[i][3]} for i in SCHEMAS if i in wf and len(wf[i]) >= 4}
+    ctx.notes["schema_caps"] = {S[i]: {"cap": wf[i][2], "min_size": wf[i][3]} for i in S if i in wf and len(wf[i]) >= 4}
 
     # ---- (a) model-generated encodings of schema-conforming values
     cases = []      # (id, hex, origin)
-    rc, lines = run_model(ctx, runner, pool, ["G %d %d %d" % (i, ctx.seed, n_gen) for i in sorted(SCHEMAS)])
-    if rc != 0 or any(l.startswith("GENFAIL") for l in lines) or len(lines) != n_gen * len(SCHEMAS):
+    rc, lines = run_model(ctx, runner, pool, ["G %d %d %d" % (i, ctx.seed, n_gen) for i in sorted(S)])
+    if rc != 0 or any(l.startswith("GENFAIL") for l in lines) or len(lines) != n_gen * len(S):
         ctx.violation({"layer": "model generator", "output": [l[:300] for l in lines if l.startswith("GENFAIL")][:3], "rc": rc,
                        "lines": len(lines)}, "model generator failed (model does not round-trip its own values?)", no_input=True)
         return
     it = iter(lines)
-    for i in sorted(SCHEMAS):
+    for i in sorted(S):
         for _ in range(n_gen):
             cases.append((i, next(it), "model"))
     # ---- (b) implementation-generated values
@@ -275,7 +294,7 @@ def run(ctx):
     max_ratio = 0.0
     max_model_alloc = 0
     for (i, h, origin), r, ml in zip(cases, impl, mlines):
-        name = SCHEMAS[i]
+        name = S[i]
         pt = per_type.setdefault(name, {"cases": 0, "accepted": 0, "rejected": 0})
         pt["cases"] += 1
         n = len(h) // 2
@@ -337,7 +356,7 @@ def run(ctx):
     # corpus expectations
     for (i, h, exp, what), r in zip(CORPUS, impl[-len(CORPUS):]):
         if r and r.get("r") in ("A", "R") and r["r"] != exp:
-            viol({"type": SCHEMAS[i], "input": h, "expected": exp, "impl": r, "what": what},
+            viol({"type": S[i], "input": h, "expected": exp, "impl": r, "what": what},
                  "regression corpus: %s - implementation %s" % (what, "accepts" if r["r"] == "A" else "rejects"))
     for l in huge:
         p = l.split()
@@ -357,7 +376,7 @@ def run(ctx):
     hl = [l for l in out.splitlines() if l.startswith("HUGE-ALLOC")]
     rc_t, out_t = c.run_bin(binp, ["types"])
     unmodelled = json.loads(out_t.splitlines()[-1])["unmodelled"] if rc_t == 0 else []
-    expected_types = len(unmodelled) + len(SCHEMAS)
+    expected_types = len(unmodelled) + len(S)
     if rc != 0 or len(fz) < expected_types:
         last = fz[-1]["type"] if fz else "(none)"
         viol({"layer": "fuzz", "rc": rc, "types_done": len(fz), "after_type": last, "tail": out[-800:], "huge": hl[:3]},
@@ -369,7 +388,7 @@ def run(ctx):
     fuzz_cases = 0
     fuzz_tab = {}
     for d in fz:
-        name = SCHEMAS.get(int(d["type"]), d["type"]) if d["type"].isdigit() else d["type"]
+        name = S.get(int(d["type"]), d["type"]) if d["type"].isdigit() else d["type"]
         fuzz_tab[name] = {"accepted": d["accepted"], "rejected": d["rejected"], "distinct_accepted": d["distinct_accepted"],
                           "max_peak_per_byte": round(d["max_peak_per_byte"], 1)}
         fuzz_acc += d["distinct_accepted"]
@@ -391,18 +410,24 @@ def run(ctx):
     ctx.notes["mutation_distribution"] = mdist
     ctx.notes["origin_distribution"] = {o: sum(1 for x in cases if x[2] == o) for o in ("model", "impl", "variant", "mut", "corpus")}
     ctx.notes["per_type"] = per_type
-    ctx.notes["impl_generators_for"] = sorted(SCHEMAS[i] for i in impl_ids)
+    ctx.notes["impl_generators_for"] = sorted(S[i] for i in impl_ids)
     ctx.notes["max_peak_bytes_per_input_byte"] = round(max_ratio, 1)
     ctx.notes["max_model_alloc_units"] = max_model_alloc
-    ctx.notes["unmodelled_types"] = unmodelled
+    derived_names = set(trep.get("registered", {}).values()) | set(trep.get("tied_equal", []))
+    ctx.notes["unmodelled_types"] = [t for t in unmodelled if t.split("::")[-1].split("<")[0].strip() not in derived_names]
+    ctx.notes["modelled_types"] = len(S)
     ctx.notes["unmodelled_variants"] = {"Payload": "tags 0,1,2,16,18,20,23,27", "UpdatePayload": "tags 1,13,24",
                                         "BlockItem": "tag 1 (credential deployment)"}
     ctx.notes["byte_fuzz"] = fuzz_tab
     ctx.notes["fixed_findings"] = [f for f in kf.get("fixed", []) if "C05" in str(f)]
-    ctx.cov["samples"] += [{"type": SCHEMAS[i], "input": h[:160], "origin": o, "impl": {k: (v[:160] if isinstance(v, str) else v) for k, v in (r or {}).items()},
+    ctx.cov["samples"] += [{"type": S[i], "input": h[:160], "origin": o, "impl": {k: (v[:160] if isinstance(v, str) else v) for k, v in (r or {}).items()},
                             "model": ml[:200]} for (i, h, o), r, ml in list(zip(cases, impl, mlines))[5::max(1, len(cases) // 6)][:6]]
     if nviol > 12:
         ctx.log("%d further mismatches not written out" % (nviol - 12))
+    if tie_broken:
+        ctx.violation({"layer": "translator (Rust declarations -> schema terms)", "error": tie_broken},
+                      "the derive(Serialize) declarations can no longer be translated / tied: %s" % tie_broken[:300],
+                      no_input=not bool(ctx.violations))
     if proof_broken:
         found = bool(ctx.violations)
         ctx.violation({"layer": "Coq proof obligations", "broken": proof_broken},
